@@ -28,7 +28,7 @@ RULE = ("each run draws a pipeline of 1-6 streaming elements (probe callables, V
         "(0-40) or infinite source, a consumer schedule (all / take k then close or drop) and "
         "optionally one upstream fault (pull p raises); non-trivial = at least 2 elements or a "
         "Split / Slice / Count and at least one value pulled; distinct = distinct abstracted "
-        "event-kind sequences (pull / tap / call / out pattern with tap names)"
+        "event-kind sequences (pull / tap / call / out pattern with tap names)."
         " Since the seeded rounds also: the flow comes from a callable, a lazily read iterable"
         " (with or without a length) or a one-shot iterator as first element of a Source, or is"
         " given to Sequence.run as an iterable with a length; Filters whose Selector takes"
